@@ -188,7 +188,9 @@ func (c *run) verifyPair(e *env, s *stmt, pf []byte, what string) int {
 	v1 := verifyReal(e.S, name, e.pairVerifier(s), pf)
 	v2, rv := verifyRec(e.S, name, e.pairVerifier(s), pf)
 	if v1 != v2 {
-		c.rep.Fail("harness/recording-verifier-diverges", fmt.Sprintf("HashVerify=%d recording=%d (%s)", v1, v2, what), s.replay(e, nil))
+		c.rep.Fail("proof.HashVerify/verdict-differs-from-Fiat-Shamir-specification",
+			fmt.Sprintf("proof.HashVerify=%d, verifier run with challenges derived as hash.go specifies (XOF(name), reseeded with every complete message)=%d (%s, k=%d, first message %d bytes)",
+				v1, v2, what, len(s.x), (4*len(s.x)+3)*e.S.PointLen()), s.replay(e, map[string]any{"proof": vh.Hex(pf)}))
 	}
 	c.rep.Dist(fmt.Sprintf("%s/pair-verify/%s/verdict=%d", e.name, what, v1))
 	k := len(s.x)
@@ -355,6 +357,44 @@ func (e *env) families(in *inst, pi []int, beta []sc) []outFam {
 		}
 		out = append(out, outFam{name: "linear-combination", xb: xb, yb: yb, linM: M, lb: pb})
 	}
+	{ // affine combination: invertible M whose rows sum to 1 (sums over the slots are preserved)
+		M := make([][]sc, k)
+		for a := range M {
+			M[a] = e.rnds(k)
+			sum := e.zero()
+			for b := 0; b < k-1; b++ {
+				sum = e.add(sum, M[a][b])
+			}
+			M[a][k-1] = e.sub(e.one(), sum)
+		}
+		xb, yb := make([]sc, k), make([]sc, k)
+		for a := 0; a < k; a++ {
+			xb[a] = e.add(e.dot(M[a], in.x), e.mul(pb[a], in.g))
+			yb[a] = e.add(e.dot(M[a], in.y), e.mul(pb[a], in.h))
+		}
+		out = append(out, outFam{name: "affine-combination", xb: xb, yb: yb, linM: M, lb: pb})
+	}
+	{ // slot j = 2*in_a - in_b, the other slots an honest shuffle (rows sum to 1, one row is not a unit vector)
+		M := e.permMatrix(pi)
+		a, b := pi[j], pi[i]
+		M[j][a] = e.small(2)
+		M[j][b] = e.neg(e.one())
+		xb, yb := cp()
+		xb[j] = e.add(e.sub(e.mul(e.small(2), in.x[a]), in.x[b]), e.mul(pb[j], in.g))
+		yb[j] = e.add(e.sub(e.mul(e.small(2), in.y[a]), in.y[b]), e.mul(pb[j], in.h))
+		out = append(out, outFam{name: "affine-2a-b", xb: xb, yb: yb, linM: M, lb: pb})
+	}
+	{ // permutation times diagonal: each ciphertext multiplied by its own scalar
+		M := e.permMatrix(pi)
+		xb, yb := make([]sc, k), make([]sc, k)
+		for a := 0; a < k; a++ {
+			sa := e.add(e.small(2), e.small(int64(a)))
+			M[a][pi[a]] = sa
+			xb[a] = e.add(e.mul(sa, in.x[pi[a]]), e.mul(pb[a], in.g))
+			yb[a] = e.add(e.mul(sa, in.y[pi[a]]), e.mul(pb[a], in.h))
+		}
+		out = append(out, outFam{name: "perm-times-diagonal", xb: xb, yb: yb, linM: M, lb: pb})
+	}
 	if k == 2 && e.r.Chance(60) || k == 2 && len(pi) == 2 && pi[0] == 0 { // the k=2 attack of the design round
 		M := [][]sc{{e.one(), e.one()}, {e.zero(), e.one()}}
 		xb := []sc{e.add(in.x[0], in.x[1]), in.x[1].Clone()}
@@ -372,6 +412,8 @@ func attackKey(mode string) string {
 		return "shuffle.PairShuffle.Verify/untied-simple-shuffle-forgery-accepted"
 	case "sigma":
 		return "shuffle.PairShuffle.Verify/eq33-forgery-accepted"
+	case "sigma-tie":
+		return "shuffle.PairShuffle.Verify/partial-tie-forgery-accepted"
 	}
 	return "shuffle.PairShuffle.Verify/simple-shuffle-forgery-accepted"
 }
@@ -392,22 +434,33 @@ func (c *run) tryForge(e *env, in *inst, f outFam, o forgeOpt) {
 	}
 	pf := rp.Proof()
 	v := c.verifyPair(e, s, pf, "forge-"+o.mode+"/"+f.name)
-	c.judge(e, s, v, false, attackKey(o.mode), what, map[string]any{"family": f.name, "strategy": o.mode, "proof": vh.Hex(pf)})
+	km := o.mode
+	if o.mode == "sigma" && o.tie > 0 || o.mode == "linear" && o.tie == 3 {
+		km = "sigma-tie"
+	}
+	c.judge(e, s, v, false, attackKey(km), what, map[string]any{"family": f.name, "strategy": o.mode, "proof": vh.Hex(pf)})
 }
 
 func (c *run) pairAdversaries(e *env, k int) {
 	in := e.newInst(k)
 	pi := randPerm(e.r, k)
 	beta := e.rnds(k)
-	hs, pf, _ := c.honestPair(e, in, pi, beta)
+	hs, pf, hrp := c.honestPair(e, in, pi, beta)
 	if pf == nil {
 		return
 	}
+	c.latePatch(e, in, hs, itemsOf(hrp.log, 'P'), itemsOf(hrp.log, 'R'))
 	for _, f := range e.families(in, pi, beta) {
 		// (1) the honest proof of the honest output, replayed for the altered output
 		s := &stmt{in.g, in.h, in.x, in.y, f.xb, f.yb}
 		v := c.verifyPair(e, s, pf, "reuse/"+f.name)
-		c.judge(e, s, v, true, "shuffle.PairShuffle.Verify/altered-output-accepted", "honest proof replayed for output family "+f.name,
+		altered := false // (with equal input ciphertexts a family may reproduce the honest output)
+		for a := range f.xb {
+			if !f.xb[a].Equal(hs.xb[a]) || !f.yb[a].Equal(hs.yb[a]) {
+				altered = true
+			}
+		}
+		c.judge(e, s, v, altered, "shuffle.PairShuffle.Verify/altered-output-accepted", "honest proof replayed for output family "+f.name,
 			map[string]any{"family": f.name, "proof": vh.Hex(pf)})
 		// (2) malicious provers
 		for tie := 0; tie < 3; tie++ {
@@ -415,8 +468,11 @@ func (c *run) pairAdversaries(e *env, k int) {
 		}
 		if f.linM != nil {
 			c.tryForge(e, in, f, forgeOpt{mode: "linear", M: f.linM, beta: f.lb, tie: e.r.Intn(3)})
+			c.tryForge(e, in, f, forgeOpt{mode: "linear", M: f.linM, beta: f.lb, tie: 3})
 		}
 		c.tryForge(e, in, f, forgeOpt{mode: "sigma", skip: e.r.Intn(k)})
+		c.tryForge(e, in, f, forgeOpt{mode: "sigma", tie: 1, skip: e.r.Intn(k)})
+		c.tryForge(e, in, f, forgeOpt{mode: "sigma", tie: 2, skip: e.r.Intn(k)})
 		c.tryForge(e, in, f, forgeOpt{mode: "simple", skip: e.r.Intn(2 * k)})
 		c.tryForge(e, in, f, forgeOpt{mode: "simple", skip: k})
 		if c.search {
@@ -425,6 +481,8 @@ func (c *run) pairAdversaries(e *env, k int) {
 			}
 			for j := 0; j < k; j++ {
 				c.tryForge(e, in, f, forgeOpt{mode: "sigma", skip: j})
+				c.tryForge(e, in, f, forgeOpt{mode: "sigma", tie: 1, skip: j})
+				c.tryForge(e, in, f, forgeOpt{mode: "sigma", tie: 2, skip: j})
 			}
 		}
 	}
@@ -502,6 +560,171 @@ func (c *run) pairAdversaries(e *env, k int) {
 		}
 		v := c.verifyPair(e, hs, mp, "mutate-"+what)
 		c.judge(e, hs, v, true, "proof.HashVerify(PairShuffle)/mutated-proof-accepted", what, map[string]any{"proof": vh.Hex(mp), "honest_proof": vh.Hex(pf)})
+	}
+}
+
+// latePatch: values of an honest proof rewritten AFTER all challenges are known so that the verifier's
+// equations hold for an altered output, every challenge assumed unchanged. Each patched value precedes a
+// challenge, so a Fiat-Shamir transform that binds the whole transcript rejects; it is accepted exactly when
+// the patched bytes are not bound by the challenges that follow them.
+func (c *run) latePatch(e *env, in *inst, hs *stmt, P, R []item) {
+	k := in.k
+	if len(P) != 12*k+3 || len(R) != k+3 {
+		return
+	}
+	rho := make([]sc, k)
+	sigma := make([]sc, k)
+	for i := 0; i < k; i++ {
+		rho[i] = R[i].s
+		sigma[i] = P[5*k+3+i].s
+	}
+	tau := P[6*k+3].s
+	Gamma := P[0].p
+	// logarithms of the honest Lambda1, Lambda2 from (34), (35)
+	rx, ry := e.dot(rho, in.x), e.dot(rho, in.y)
+	l1 := e.sub(e.sub(e.dot(sigma, hs.xb), rx), e.mul(tau, in.g))
+	l2 := e.sub(e.sub(e.dot(sigma, hs.yb), ry), e.mul(tau, in.h))
+	build := func(patch map[int]item) []byte {
+		var b []byte
+		for i := range P {
+			if it, ok := patch[i]; ok {
+				b = append(b, enc(it)...)
+			} else {
+				b = append(b, enc(P[i])...)
+			}
+		}
+		return b
+	}
+	for trial := 0; trial < 3; trial++ {
+		xb, yb := clones(hs.xb), clones(hs.yb)
+		j := e.r.Intn(k)
+		what := "replace"
+		switch trial {
+		case 0:
+			xb[j], yb[j] = e.rnd(), e.rnd()
+		case 1:
+			yb[j] = e.add(yb[j], e.rndnz())
+			what = "add-plaintext"
+		case 2:
+			o := (j + 1) % k
+			xb[j], yb[j] = e.add(xb[j], in.x[o]), e.add(yb[j], in.y[o])
+			what = "sum"
+		}
+		s := &stmt{in.g, in.h, in.x, in.y, xb, yb}
+		i0 := e.r.Intn(k)
+		// sigma[i0], tau re-solved from (34),(35) for the new output
+		r1, r2 := e.add(l1, rx), e.add(l2, ry)
+		for i := 0; i < k; i++ {
+			if i != i0 {
+				r1 = e.sub(r1, e.mul(sigma[i], xb[i]))
+				r2 = e.sub(r2, e.mul(sigma[i], yb[i]))
+			}
+		}
+		s0, t0, ok := e.solve2(xb[i0], e.neg(in.g), yb[i0], e.neg(in.h), r1, r2)
+		names := []string{"Lambda1,Lambda2"}
+		patches := map[string]map[int]item{
+			"Lambda1,Lambda2": {
+				4*k + 1: {p: e.pt(e.sub(e.sub(e.dot(sigma, xb), rx), e.mul(tau, in.g)))},
+				4*k + 2: {p: e.pt(e.sub(e.sub(e.dot(sigma, yb), ry), e.mul(tau, in.h)))}},
+		}
+		if ok {
+			sG := e.S.Point().Mul(s0, Gamma)
+			patches["sigma,tau,W"] = map[int]item{5*k + 3 + i0: {s: s0}, 6*k + 3: {s: t0},
+				3*k + 1 + i0: {p: e.S.Point().Sub(sG, P[4*k+3+i0].p)}}
+			patches["sigma,tau,D"] = map[int]item{5*k + 3 + i0: {s: s0}, 6*k + 3: {s: t0},
+				4*k + 3 + i0: {p: e.S.Point().Sub(sG, P[3*k+1+i0].p)}}
+			patches["sigma,tau"] = map[int]item{5*k + 3 + i0: {s: s0}, 6*k + 3: {s: t0}}
+			names = append(names, "sigma,tau,W", "sigma,tau,D", "sigma,tau")
+		}
+		for _, name := range names {
+			pf := build(patches[name])
+			v := c.verifyPair(e, s, pf, "late-patch")
+			c.judge(e, s, v, false, "proof.HashVerify/value-rewritten-after-the-challenges-accepted",
+				fmt.Sprintf("honest proof, output family %s, %s recomputed after all challenges were known (k=%d, first message %d bytes)", what, name, k, (4*k+3)*e.S.PointLen()),
+				map[string]any{"patched": name, "family": what, "proof": vh.Hex(pf)})
+		}
+	}
+}
+
+// a VerifierContext that passes everything on to the context proof.HashVerify made and records what
+// the implementation decoded and which challenges IT derived
+type tapVerifier struct {
+	inner proof.VerifierContext
+	log   []ev
+}
+
+func (t *tapVerifier) Get(m any) error {
+	err := t.inner.Get(m)
+	if err == nil {
+		t.log = append(t.log, ev{'P', flat(m)})
+	}
+	return err
+}
+func (t *tapVerifier) PubRand(data ...any) error {
+	err := t.inner.PubRand(data...)
+	if err == nil {
+		t.log = append(t.log, ev{'R', flat(data...)})
+	}
+	return err
+}
+
+// the same adversary against a proof made by proof.HashProve, with the challenges proof.HashVerify itself
+// derives (whatever they are a function of)
+func (c *run) latePatchReal(e *env, in *inst, pi []int, beta []sc, hs *stmt) {
+	ps := shuffle.PairShuffle{}
+	ps.Init(e.S, in.k)
+	var pf []byte
+	var err error
+	pan, _ := vh.Try(func() {
+		pf, err = proof.HashProve(e.S, "PairShuffle", func(ctx proof.ProverContext) error {
+			return ps.Prove(pi, e.pt(in.g), e.pt(in.h), clones(beta), e.pts(in.x), e.pts(in.y), e.st, ctx)
+		})
+	})
+	if pan || err != nil {
+		return
+	}
+	tap := &tapVerifier{}
+	inner := e.pairVerifier(hs)
+	pan, _ = vh.Try(func() {
+		err = proof.HashVerify(e.S, "PairShuffle", func(ctx proof.VerifierContext) error {
+			tap.inner = ctx
+			return (func(proof.VerifierContext) error)(inner)(tap)
+		}, pf)
+	})
+	if pan || err != nil {
+		c.rep.Fail("shuffle.PairShuffle/honest-proof-rejected", fmt.Sprintf("proof.HashProve then proof.HashVerify, k=%d: %v", in.k, err), hs.replay(e, nil))
+		return
+	}
+	c.latePatch(e, in, hs, itemsOf(tap.log, 'P'), itemsOf(tap.log, 'R'))
+}
+
+// instances whose messages are far longer than any fixed-size buffer
+func (c *run) largeK(e *env) {
+	ks := map[string][]int{"dlog": {24, 64, 300}, "ed25519": {17, 40}, "p256": {9, 20}}[e.name]
+	if c.thor {
+		ks = append(ks, map[string]int{"dlog": 1000, "ed25519": 130, "p256": 64}[e.name])
+	}
+	for n, k := range ks {
+		in := e.newInst(k)
+		pi := randPerm(e.r, k)
+		beta := e.rnds(k)
+		save := c.search
+		if n > 0 {
+			c.search = true // verdicts only: no Coq case for the very large ones
+		}
+		hs, pf, rp := c.honestPair(e, in, pi, beta)
+		if pf != nil {
+			c.latePatch(e, in, hs, itemsOf(rp.log, 'P'), itemsOf(rp.log, 'R'))
+			c.latePatchReal(e, in, pi, beta, hs)
+			// a replaced slot with the honest proof
+			xb, yb := clones(hs.xb), clones(hs.yb)
+			xb[k-1], yb[k-1] = e.rnd(), e.rnd()
+			s := &stmt{in.g, in.h, in.x, in.y, xb, yb}
+			v := c.verifyPair(e, s, pf, "reuse/replace")
+			c.judge(e, s, v, true, "shuffle.PairShuffle.Verify/altered-output-accepted", "honest proof replayed for a replaced slot", nil)
+		}
+		c.apiShuffle(e, k)
+		c.search = save
 	}
 }
 
@@ -596,6 +819,11 @@ func (c *run) apiShuffle(e *env, k int) {
 		return
 	}
 	v := verifyReal(e.S, "PairShuffle", shuffle.Verifier(e.S, G, H, X, Y, Xb, Yb), pf)
+	if v2, _ := verifyRec(e.S, "PairShuffle", shuffle.Verifier(e.S, G, H, X, Y, Xb, Yb), pf); v2 != v {
+		c.rep.Fail("proof.HashProve/challenges-differ-from-Fiat-Shamir-specification",
+			fmt.Sprintf("a proof made by proof.HashProve: proof.HashVerify=%d, verifier run with challenges derived as hash.go specifies=%d (k=%d, first message %d bytes)",
+				v, v2, k, (4*k+3)*e.S.PointLen()), map[string]any{"suite": e.name, "k": k, "proof": vh.Hex(pf)})
+	}
 	c.rep.Dist(fmt.Sprintf("%s/Shuffle()/verdict=%d", e.name, v))
 	c.rep.Count(fmt.Sprintf("api/%s/%x", e.name, pf), true)
 	if v != vOK {
@@ -647,25 +875,34 @@ func (e *env) samePlaintexts(in *inst, X, Y, Xb, Yb []kyber.Point) bool {
 var _ cipher.Stream = (*rngStream)(nil)
 
 // HashProve and the recording prover produce the same bytes when the private randomness is the same
-func (c *run) mirrorSanity(name string, seed uint64) {
+func (c *run) mirrorSanity(name string, seed uint64, k int) {
 	mk := func() (*env, *inst, []int, []sc) {
 		e := newEnv(name, vh.NewRng(seed))
-		in := e.newInst(3)
-		return e, in, randPerm(e.r, 3), e.rnds(3)
+		in := e.newInst(k)
+		return e, in, randPerm(e.r, k), e.rnds(k)
 	}
 	e1, in1, pi1, b1 := mk()
 	ps := shuffle.PairShuffle{}
-	ps.Init(e1.S, 3)
+	ps.Init(e1.S, k)
 	pf1, err := proof.HashProve(e1.S, "PairShuffle", func(ctx proof.ProverContext) error {
 		return ps.Prove(pi1, e1.pt(in1.g), e1.pt(in1.h), b1, e1.pts(in1.x), e1.pts(in1.y), e1.st, ctx)
 	})
 	e2, in2, pi2, b2 := mk()
 	ps2 := shuffle.PairShuffle{}
-	ps2.Init(e2.S, 3)
+	ps2.Init(e2.S, k)
 	rp := newRecProver(e2.S, "PairShuffle", e2.S.RandomStream())
 	err2 := ps2.Prove(pi2, e2.pt(in2.g), e2.pt(in2.h), b2, e2.pts(in2.x), e2.pts(in2.y), e2.st, rp)
-	if err != nil || err2 != nil || string(pf1) != string(rp.Proof()) {
-		c.rep.Fail("harness/recording-prover-diverges", "proof.HashProve and the recording prover context disagree on "+name, nil)
+	pf2 := rp.Proof()
+	c.rep.Count(fmt.Sprintf("mirror/%s/%d/%x", name, k, pf1), true)
+	if err != nil || err2 != nil || string(pf1) != string(pf2) {
+		at := 0
+		for at < len(pf1) && at < len(pf2) && pf1[at] == pf2[at] {
+			at++
+		}
+		c.rep.Fail("proof.HashProve/transcript-differs-from-Fiat-Shamir-specification",
+			fmt.Sprintf("same statement, witness and private randomness: the proof bytes of proof.HashProve and of a prover context that derives every challenge as hash.go specifies (XOF(name), reseeded with each complete message) differ from byte %d on (%s, k=%d, first message %d bytes, proof %d bytes)",
+				at, name, k, (4*k+3)*e1.S.PointLen(), len(pf1)),
+			map[string]any{"suite": name, "k": k, "seed": seed, "HashProve": vh.Hex(pf1), "specification": vh.Hex(pf2)})
 	}
 }
 
@@ -673,12 +910,18 @@ func main() {
 	o := vh.ParseFlags()
 	rng := vh.NewRng(o.Seed)
 	rep := vh.NewReport("C15", o.Seed, o.Tier)
-	rep.Rule = "dlog group: k in 2..8 (thorough ..40), every permutation for k<=4 (thorough k<=5), NQ 1..3 (thorough ..4); per k one instance x adversarial output families (replace, replace-x, add-plaintext, duplicate, drop, sum, scalar multiple, linear combination, swap) x {honest proof replayed, malicious provers untied/linear/sigma/simple}, altered G/H/X/Y, splicing at every message boundary, every transcript value perturbed, byte mutation; verdicts also over Ed25519 and P-256"
+	rep.Rule = "dlog group: k in 2..8 (thorough ..40), every permutation for k<=4 (thorough k<=5), NQ 1..3 (thorough ..4); per k one instance x adversarial output families (replace, replace-x, add-plaintext, duplicate, drop, sum, scalar multiple, linear combination, swap) x {honest proof replayed, malicious provers untied/linear/sigma/simple}, altered G/H/X/Y, splicing at every message boundary, every transcript value perturbed, byte mutation, values re-solved after the challenges (late patch), partial-tie provers, arbitrary invertible linear maps; large k (dlog 24/64/300, Ed25519 17/40, P-256 9/20) and byte-for-byte comparison of proof.HashProve with specification-derived challenges up to 72 KB messages; verdicts also over Ed25519 and P-256"
 	c := &run{rep: rep, search: o.Search, thor: o.Thorough,
 		cf: &vh.CaseFile{Header: "From Kyber Require Import Shuffle.ShuffleSM Shuffle.ShuffleRun.", Type: "case", Runner: "mismatches"}}
 
-	c.mirrorSanity("dlog", o.Seed)
-	c.mirrorSanity("ed25519", o.Seed)
+	// the Fiat-Shamir transcript of the implementation against the specification, byte for byte, also for
+	// messages far longer than any fixed-size buffer (first message: (4k+3) points)
+	for _, k := range []int{3, 64, 2000} {
+		c.mirrorSanity("dlog", o.Seed+uint64(k), k)
+	}
+	for _, k := range []int{3, 17, 70} {
+		c.mirrorSanity("ed25519", o.Seed+uint64(k), k)
+	}
 
 	kmax, permk, nq := 8, 4, 3
 	if o.Thorough {
@@ -726,6 +969,7 @@ func main() {
 					c.pairAdversaries(e, k)
 				}
 			}
+			c.largeK(e)
 			for _, k := range []int{2, 3} {
 				c.splice(e, k)
 				c.perturb(e, k, name == "dlog")
@@ -736,7 +980,7 @@ func main() {
 		}
 	}
 	if !o.Search {
-		vh.WriteShards(o.Out, "c15", c.cf, 120, rep)
+		vh.WriteShards(o.Out, "c15", c.cf, 90, rep)
 	}
 	rep.Write(o.Out)
 }
